@@ -10,7 +10,7 @@ use serde_json::{json, Value as J};
 
 pub static PROP: Prop = Prop {
     id: "C12",
-    rule: "cases: programs from the flat generator (all 32 infix operators, `not OP`, prefix/postfix over atoms and parenthesised groups, conditionals in operand/condition/branch position, strings containing either quote, calls, lists, maps with conditional keys, statement chains; names are never operator words; in a third of the cases a user operator vh_rt is re-registered with another precedence (0, 1, 25 ... 205) and associativity first and used heavily; a sixth of those are chains of vh_rt followed by an operator-like token that is not infix), plus exhaustive placements: every infix operator as parenthesised left and right child of every other (32x32x2), `not OP` forms under every operator, prefix and postfix operators over parenthesised infix/conditional/prefix/postfix operands, conditionals as operand, condition and branch. Oracle: t = parse(s); s2 = t.expr(); parse(s2) must be Ok(t2) with t2 == t (structural, numbers by mantissa and scale); t2.expr() == s2. Non-trivial: the tree has a compound node (infix, not-infix, conditional, prefix, postfix) directly under an operator or conditional node, or a string containing a quote; distinct by tree skeleton.",
+    rule: "cases: programs from the flat generator (all 32 infix operators, `not OP`, prefix/postfix over atoms and parenthesised groups, conditionals in operand/condition/branch position, strings containing either quote, calls, lists, maps with conditional keys, statement chains; names are never operator words; in a third of the cases a user operator vh_rt is re-registered with another precedence (0, 1, 25 ... 205) and associativity first and used heavily, together with a user postfix operator and a user prefix operator that are spelled as words (inside calls, lists, maps and statement chains a word operator is directly followed by a separator); a sixth of those are chains of vh_rt followed by an operator-like token that is not infix), plus exhaustive placements: every infix operator as parenthesised left and right child of every other (32x32x2), `not OP` forms under every operator, prefix and postfix operators over parenthesised infix/conditional/prefix/postfix operands, conditionals as operand, condition and branch. Oracle: t = parse(s); s2 = t.expr(); parse(s2) must be Ok(t2) with t2 == t (structural, numbers by mantissa and scale); t2.expr() == s2. Non-trivial: the tree has a compound node (infix, not-infix, conditional, prefix, postfix) directly under an operator or conditional node, or a string containing a quote; distinct by tree skeleton.",
     assumptions: &["programs come from the generator's well-formed grammar; a program the engine rejects is counted as excluded (C02 reports it)"],
     budget,
     setup: noop_setup,
@@ -28,6 +28,15 @@ fn budget(t: Tier) -> Budget {
         shards: 16,
         dual_profile: false,
     }
+}
+
+/// user operators spelled as words: postfix `vh_pp`, prefix `vh_np`
+fn register_words() {
+    static WORDS: std::sync::Once = std::sync::Once::new();
+    WORDS.call_once(|| {
+        expression_engine::register_postfix_op("vh_pp", std::sync::Arc::new(|a| Ok(a)));
+        expression_engine::register_prefix_op("vh_np", std::sync::Arc::new(|a| Ok(a)));
+    });
 }
 
 fn register_rt(prec: i64, right: bool) {
@@ -178,10 +187,20 @@ fn case(src: &mut Src, st: &mut Stats, _env: &Env) -> CaseResult {
             return check_text_with(&text, &format!("tail:{}:{}:{}", prec, right, text), true, st, json!({"text": text, "vh_rt": [prec, right]}));
         }
     }
+    if dynamic {
+        // user operators spelled as words, in postfix and prefix position
+        register_words();
+        tab.postfix.insert("vh_pp".to_string());
+        tab.prefix.insert("vh_np".to_string());
+    }
     let mut cfg = SynCfg::new(&tab);
     if dynamic {
         for _ in 0..8 {
             cfg.infix.push("vh_rt".to_string());
+        }
+        for _ in 0..2 {
+            cfg.postfix.push("vh_pp".to_string());
+            cfg.prefix.push("vh_np".to_string());
         }
     }
     let toks = gen_program(src, &cfg);
@@ -195,6 +214,7 @@ fn case(src: &mut Src, st: &mut Stats, _env: &Env) -> CaseResult {
 
 fn replay(case: &J, st: &mut Stats, _env: &Env) -> CaseResult {
     st.eval();
+    register_words();
     if let Some(r) = case["vh_rt"].as_array() {
         register_rt(r[0].as_i64().unwrap_or(100), r[1].as_bool().unwrap_or(false));
         return check_text_with(case["text"].as_str().unwrap_or(""), "", false, st, case.clone());
